@@ -111,6 +111,16 @@ package config
 //@   requires def != nil && lc != nil
 //@   modifies *
 //@   ensures err == nil ==> cfg != nil
+// C10: the definition's `variables:` are layered over the built-in defaults and are what the configuration carries
+//@   ghostlocal gDefVars variables.Container
+//@   ghostlocal gMerged variables.Container
+//@   ensures #C10.config-level-variables-kept err == nil ==> calls(FromMap) == 1 && calls(Merge) == 1 && cfg.Variables == gMerged
+//@   callsite FromMap
+//@     requires #C10.config-variables-from-the-definition arg0 == def.Variables
+//@     ghost gDefVars = result
+//@   callsite Container.Merge
+//@     requires #C10.definition-variables-over-the-defaults arg0 == gDefVars && recv == cfg.Variables
+//@     ghost gMerged = result
 //@   ghostlocal included bool
 //@   callsite buildContext
 //@     requires #C09.context-dir-as-written-in-the-definition arg0.Dir == old(arg0.Dir)
@@ -183,10 +193,25 @@ package config
 //@ func mergeImported
 //@   requires dst != nil
 //@   modifies *
+// C17: a file that cannot be read or parsed is an error of the load, never an empty configuration
 //@ func (*Loader).readFile
 //@   nomod
+//@   ghostlocal readFailed bool
+//@   ghostlocal parseFailed bool
+//@   callsite ReadFile
+//@     ghost readFailed = result#1 != nil
+//@   callsite unmarshalData
+//@     ghost parseFailed = result#1 != nil
+//@   ensures #C17.unreadable-file-is-an-error readFailed ==> result#1 != nil
+//@   ensures #C17.unparsable-file-is-an-error parseFailed ==> result#1 != nil
 //@ func (*Loader).readURL
 //@   nomod
+//@ func (*Loader).unmarshalData
+//@   nomod
+//@   ghostlocal decodeFailed bool
+//@   callsite Decode
+//@     ghost decodeFailed = decodeFailed || result != nil
+//@   ensures #C17.decoder-error-is-returned decodeFailed ==> result#1 != nil
 //@ func (*Loader).decode
 //@   requires cl != nil
 //@   nomod
@@ -205,23 +230,28 @@ package config
 
 //@ func (*Loader).load
 //@   ghostlocal nestedFailed bool
+//@   ghostlocal thisFileFailed bool
 //@   requires loaderOK(cl)
 //@   modifies *
 //@   ensures loaderOK(cl) && cl.imports == old(cl.imports) && cl.dst == old(cl.dst)
 //@   ensures #C17.marked cl.imports[file]
 //@   ensures #C17.visited-grows forall f string :: old(cl.imports[f]) ==> cl.imports[f]
 //@   ensures #C17.import-error-propagates nestedFailed ==> err != nil
+//@   ensures #C17.unreadable-file-is-an-error thisFileFailed ==> err != nil
 //@   ensures #C15.not-found-means-this-file-is-missing isNF(err) ==> !fileExists(file)
 //@   loop 1 "range importList"
 //@     invariant #same cl == cl0 && file == file0 && loaderOK(cl) && cl.imports == old(cl.imports) && cl.dst == old(cl.dst)
 //@     invariant #C17.marked cl.imports[file]
 //@     invariant #C17.visited-grows forall f string :: old(cl.imports[f]) ==> cl.imports[f]
 //@     invariant #C17.no-failure-so-far !nestedFailed
+//@     invariant #C17.this-file-was-read !thisFileFailed
 //@   callsite readFile
 //@     requires #C17.marked-before-read cl.imports[arg0]
+//@     ghost thisFileFailed = result#1 != nil
 //@     assume !isNF(result#1) // ioutil.ReadFile's / the decoders' errors, flattened with %v (readFile is checked in the C15 sweep for safety only)
 //@   callsite readURL
 //@     requires #C17.marked-before-read cl.imports[arg0]
+//@     ghost thisFileFailed = result#1 != nil
 //@     assume !isNF(result#1) // http / decoder errors, flattened with %v
 //@   callsite load
 //@     requires #C17.only-unvisited !cl.imports[arg0]
@@ -230,6 +260,7 @@ package config
 //@     ghost nestedFailed = nestedFailed || result#1 != nil
 //@   callsite mergeImported
 //@     assume loaderOK(cl) && cl.imports == old(cl.imports) && cl.dst == old(cl.dst) && (forall f string :: old(cl.imports[f]) ==> cl.imports[f]) && !isNF(result) // mergeImported (mergo.Merge) is handed &config and the imported map only: it does not touch the loader; its error is mergo's or the recovered panic
+//@     ghost nestedFailed = nestedFailed || result != nil // an import that cannot be merged fails the load as well
 
 //@ func (*Loader).loadDir
 //@   ghostlocal nestedFailed bool
@@ -248,3 +279,4 @@ package config
 //@     ghost nestedFailed = nestedFailed || result#1 != nil
 //@   callsite mergeImported
 //@     assume loaderOK(cl) && cl.imports == old(cl.imports) && cl.dst == old(cl.dst) && (forall f string :: old(cl.imports[f]) ==> cl.imports[f]) && !isNF(result) // mergeImported (mergo.Merge) is handed &config and the imported map only: it does not touch the loader; its error is mergo's or the recovered panic
+//@     ghost nestedFailed = nestedFailed || result != nil // an import that cannot be merged fails the load as well
